@@ -6,12 +6,12 @@
      cres = COk v | CExn e                        a result or the exception class raised
      world                                        what is runtime: codec registry (lookup / enc / dec), the value of
                                                   sys.stdin.encoding or sys.getdefaultencoding(), the NFKD->ASCII fold
-     world3 d                                     the concrete world: CPython's UTF-8, Latin-1, ASCII, UTF-16(-LE/-BE), UTF-32(-LE/-BE) codecs,
+     world3 d                                     the concrete world: CPython's UTF-8, Latin-1, ASCII, UTF-16(-LE/-BE), UTF-32(-LE/-BE), cp1252, koi8-r codecs,
                                                   its name lookup for them, the generated NFKD table, default encoding d
    Part A: any world, contracts as premises.  Part B: world3, no premises left.  Part C: the regex engine. *)
 From Coq Require Import String.
 Require Import OV.Base.Bytes OV.Base.PyInt OV.Base.Str OV.Base.Regex OV.Base.C16_Py.
-Require Import OV.Gen.C16_Aliases OV.Gen.C16_Fold OV.Gen.C16_Slug OV.Gen.C16_Code.
+Require Import OV.Gen.C16_Aliases OV.Gen.C16_Fold OV.Gen.C16_Charmaps OV.Gen.C16_Slug OV.Gen.C16_Code.
 Require Import OV.Model.C16 OV.Model.C16_Codecs.
 Require Import OV.Proofs.C16_Regex OV.Proofs.C16 OV.Proofs.C16_Slug OV.Proofs.C16_Utf16 OV.Proofs.C16_Codecs OV.Proofs.C16_Closed.
 Open Scope N_scope.
@@ -204,15 +204,15 @@ Theorem C16_utf32_bom_codec_roundtrip : forall t, valid_text t = true ->
 Proof. exact utf32_bom_roundtrip. Qed.
 Print Assumptions C16_utf32_bom_codec_roundtrip.
 
-(* all nine concrete codecs at once: representable text (surrogate-free; below U+0100 for Latin-1, below U+0080
-   for ASCII) is encoded under any policy to bytes that decode under any policy to the same text *)
+(* all eleven concrete codecs at once: representable text (surrogate-free; below U+0100 for Latin-1, below U+0080
+   for ASCII; characters of the table for cp1252 / koi8-r) is encoded under any policy to bytes that decode under any policy to the same text *)
 Theorem C16_codec_roundtrip_all : forall c t, representable3 c t = true ->
   exists b, (forall e, enc3 c t e = COk b) /\ (forall e, dec3 c b e = COk t).
 Proof. exact enc3_dec3_roundtrip. Qed.
 Print Assumptions C16_codec_roundtrip_all.
 
 (* the helpers' round trip through any ASCII spelling, in any letter case, of a name CPython resolves to one of
-   the nine codecs (generated alias table + CPython's name normalisation), any error policy *)
+   the eleven codecs (generated alias table + CPython's name normalisation), any error policy *)
 Theorem C16_roundtrip_concrete_codecs : forall d e c t incoming0 errors,
   forallb is_ascii e = true ->
   lookup3 e = Some c ->
@@ -286,7 +286,38 @@ Theorem C16_roundtrip_utf32be : forall d e t incoming0 errors,
 Proof. exact world3_roundtrip_utf32be. Qed.
 Print Assumptions C16_roundtrip_utf32be.
 
-(* transcoding between any two of the nine codecs: safe_encode(bytes, incoming=a, encoding=b) = encode_b(decode_a(bytes))
+Theorem C16_roundtrip_cp1252 : forall d e t incoming0 errors,
+  forallb is_ascii e = true -> lookup3 e = Some CCp1252 -> charmap_repr cp1252_table t = true ->
+  exists b, safe_encode (world3 d) (PStr t) incoming0 e errors = COk (PBytes b) /\
+            safe_decode (world3 d) (PBytes b) (Some e) errors = COk t.
+Proof. exact world3_roundtrip_cp1252. Qed.
+Print Assumptions C16_roundtrip_cp1252.
+
+Theorem C16_roundtrip_koi8r : forall d e t incoming0 errors,
+  forallb is_ascii e = true -> lookup3 e = Some CKoi8R -> charmap_repr koi8r_table t = true ->
+  exists b, safe_encode (world3 d) (PStr t) incoming0 e errors = COk (PBytes b) /\
+            safe_decode (world3 d) (PBytes b) (Some e) errors = COk t.
+Proof. exact world3_roundtrip_koi8r. Qed.
+Print Assumptions C16_roundtrip_koi8r.
+
+(* single-byte codecs given by a decoding table (cp1252 and koi8-r: tables regenerated from CPython): round trip for
+   every text whose characters occur in the table, any table, any length *)
+Theorem C16_charmap_codec_roundtrip : forall tbl t, charmap_repr tbl t = true ->
+  exists b, (forall p, charmap_enc tbl p t = COk b) /\ (forall p, charmap_dec tbl p b = COk t).
+Proof. exact charmap_roundtrip. Qed.
+Print Assumptions C16_charmap_codec_roundtrip.
+
+(* codec-name lookup (CPython's normalisation + the generated alias table): only the ASCII-lower-cased name matters,
+   and any separator ('-', '_', ' ', ...) may stand for any other *)
+Theorem C16_lookup_case_insensitive : forall a b, lower_ascii a = lower_ascii b -> lookup3 a = lookup3 b.
+Proof. exact lookup3_case. Qed.
+Print Assumptions C16_lookup_case_insensitive.
+
+Theorem C16_lookup_separator_insensitive : forall a b, same_but_seps a b -> lookup3 a = lookup3 b.
+Proof. exact lookup3_seps. Qed.
+Print Assumptions C16_lookup_separator_insensitive.
+
+(* transcoding between any two of the eleven codecs: safe_encode(bytes, incoming=a, encoding=b) = encode_b(decode_a(bytes))
    whenever the lower-cased names differ and codec a decodes the bytes (under the given policy) *)
 Theorem C16_transcodes_concrete : forall d b incoming encoding errors cin cout t,
   b <> [] ->
@@ -298,7 +329,7 @@ Theorem C16_transcodes_concrete : forall d b incoming encoding errors cin cout t
 Proof. exact world3_transcodes. Qed.
 Print Assumptions C16_transcodes_concrete.
 
-(* the seven BOM-less codecs are canonical: re-encoding what was strictly decoded from a byte string gives the bytes *)
+(* the nine BOM-less codecs are canonical: re-encoding what was strictly decoded from a byte string gives the bytes *)
 Theorem C16_reencode_identity : forall c b t, canonical3 c = true -> all_bytes b = true ->
   dec3 c b strict_name = COk t -> enc3 c t strict_name = COk b.
 Proof. exact enc3_after_dec3. Qed.
@@ -416,6 +447,18 @@ Example ex_utf16_malformed :
   utf32_dec true Replace [0;216;0;0; 65] = COk [65533; 65533] /\   (* surrogate unit, then truncated *)
   utf32_dec true Replace [0;0;17;0] = COk [65533] /\               (* 0x110000 *)
   utf32_bom_dec Strict [0;0;254;255; 0;0;0;65] = COk [65].
+Proof. vm_compute. repeat split. Qed.
+Example ex_aliases :
+  map lookup3 [lit "utf8"; lit "UTF_16LE"; lit "latin1"; lit "iso-8859-1"; lit "l1"; lit "U32"; lit "utf 8"; lit "Utf-16-bE"; lit "us-ascii"; lit "utf-9"]
+  = [Some CUtf8; Some CUtf16LE; Some CLatin1; Some CLatin1; Some CLatin1; Some CUtf32; Some CUtf8; Some CUtf16BE; Some CAscii; None] /\
+  same_but_seps (lit "utf-16-le") (lit "utf_16 le").
+Proof. split; [vm_compute; reflexivity|]. repeat constructor; (left; reflexivity) || (right; split; reflexivity). Qed.
+Example ex_charmaps :
+  safe_encode w_ascii (PStr [8364; 233]) None (lit "Windows-1252") (lit "strict") = COk (PBytes [128; 233]) /\
+  safe_decode w_ascii (PBytes [128; 233]) (Some (lit "cp1252")) (lit "strict") = COk [8364; 233] /\
+  charmap_repr cp1252_table [8364; 233] = true /\ lookup3 (lit "Windows-1252") = Some CCp1252 /\
+  safe_encode w_ascii (PBytes [208;175]) (Some (lit "UTF8")) (lit "KOI8_R") (lit "strict") = COk (PBytes [241]) /\
+  charmap_dec cp1252_table Replace [65; 129] = COk [65; 65533].
 Proof. vm_compute. repeat split. Qed.
 Example ex_latin1 : lookup3 (lit "ISO_8859-1:1987") = Some CLatin1 /\ representable3 CLatin1 [233; 255] = true.
 Proof. vm_compute. split; reflexivity. Qed.
